@@ -961,9 +961,15 @@ pub struct ServerRun {
     pub started: BTreeMap<usize, (i128, Tc)>,
     pub finished: BTreeMap<usize, bool>,
     pub alive_handler_tasks: Vec<usize>,
+    pub overflow_errors: u32,
 }
 
 pub fn run_server(cfg: &ServerCfg, ops: &[SOp], avoid_f6: bool) -> ServerRun {
+    run_server_opts(cfg, ops, avoid_f6, false)
+}
+
+/// `strict_sink`: the scripted sink rejects a start_send that was not preceded by a successful poll_ready.
+pub fn run_server_opts(cfg: &ServerCfg, ops: &[SOp], avoid_f6: bool, strict_sink: bool) -> ServerRun {
     clock::enable_and_reset();
     tarpc::verif::set_yield_hook(None);
     let _sub = subscriber_guard(cfg.subscriber);
@@ -972,6 +978,7 @@ pub fn run_server(cfg: &ServerCfg, ops: &[SOp], avoid_f6: bool) -> ServerRun {
     let mut out = rt.block_on(tokio::task::unconstrained(async {
         let sim = ServerSim::new(cfg.clone(), hist.clone(), 0, 1);
         sim.avoid_f6.set(avoid_f6);
+        sim.tr.set_strict(strict_sink);
         for op in ops {
             if sim.livelock.get() {
                 break;
@@ -1000,6 +1007,7 @@ pub fn run_server(cfg: &ServerCfg, ops: &[SOp], avoid_f6: bool) -> ServerRun {
             started: sim.shared.started.borrow().clone(),
             finished: sim.shared.finished.borrow().clone(),
             alive_handler_tasks: alive,
+            overflow_errors: sim.tr.overflow_errors(),
         };
         let mut run = run;
         run.recs = hist.snapshot();
